@@ -195,6 +195,9 @@ def minimise(prop, spec, schedule, violations, runs=2000, secs=60):
                     if len(cur) > 1 and i < len(cur):
                         s2 = copy.deepcopy(best[0])
                         del s2["tasks"][ti]["ops"][oi][key][i]
+                        ev = s2["tasks"][ti]["ops"][oi].get("events")
+                        if ev:  # hand-built events are keyed by position in the path list
+                            s2["tasks"][ti]["ops"][oi]["events"] = {str(int(j) if int(j) < i else int(j) - 1): v for j, v in ev.items() if int(j) != i}
                         if keep(s2, best[1]):
                             changed = True
                     i -= 1
@@ -278,12 +281,18 @@ def prune(spec):
     for t in s["tasks"]:
         for kind, key in (("parsers", "p"), ("matchers", "m"), ("compilers", "c"), ("streams", "s")):
             inst = t.get(kind) or []
-            used = sorted({op[key] for op in t["ops"] if op.get(key) is not None and key in op})
+            used = sorted({op[key] for op in t["ops"] if op.get(key) is not None and key in op} |
+                          ({op["also"] for op in t["ops"] if op.get("also") is not None} if kind == "streams" else set()))
             remap = {old: new for new, old in enumerate(used)}
             t[kind] = [inst[i] for i in used if i < len(inst)]
             for op in t["ops"]:
                 if op.get(key) is not None and key in op:
                     op[key] = remap[op[key]]
+                if kind == "streams" and op.get("also") is not None:
+                    if op["also"] in remap:
+                        op["also"] = remap[op["also"]]
+                    else:
+                        op.pop("also")
         for op in t["ops"]:
             if op.get("path"):
                 used_files.add(op["path"])
